@@ -45,7 +45,12 @@ class DelayPost(TablePost):
         return super().__call__(x)
 
 
+_POS_MODE = "lattice"        # "floor": positions are projected to the integer cell that determines their energy (Hamiltonian chains)
+
+
 def _proj_pos(x):
+    if _POS_MODE == "floor":
+        return [int(np.floor(t)) for t in np.atleast_1d(x)]
     v = to_lattice(x)
     return v if v is not None else [float(t) for t in np.atleast_1d(x)]
 
@@ -74,6 +79,17 @@ from inference.mcmc.hmc import HamiltonianChain
 
 LoggedGibbsChain = make_logged(GibbsChain)
 LoggedPcaChain = make_logged(PcaChain)
+LoggedHamiltonianChain = make_logged(HamiltonianChain)
+
+
+class FloorPost(DelayPost):
+    """piecewise-constant posterior: the energy of a point is that of the integer cell it lies in; zero gradient (free flight)"""
+
+    def energy(self, x):
+        return super().energy(np.floor(np.atleast_1d(np.asarray(x, dtype=float))))
+
+    def grad(self, x):
+        return np.zeros(np.atleast_1d(x).size)
 
 
 class TConn:
@@ -142,7 +158,7 @@ class TConn:
 class MasterRng:
     def __init__(self, seed, force=None):
         self.g = np.random.default_rng(seed)
-        self.force = force          # None | "accept" | "reject": override the quantised draw
+        self.force = force          # None | "accept" | "reject" | "edge": override the quantised draw
 
     def random(self, size=None):
         i = int(self.g.integers(0, 2 ** MBITS))
@@ -150,6 +166,10 @@ class MasterRng:
             i = 0
         elif self.force == "reject":
             i = 2 ** MBITS - 1
+        elif self.force == "edge":
+            # just below / just above 2^-k: the decision then changes with any error in the exponent of the exchange rule
+            k = int(self.g.integers(1, min(MBITS, 12) + 1))
+            i = 2 ** (MBITS - k) - int(self.g.integers(0, 2))
         _emit("M", {"ev": "draw", "i": i})
         return (2 * i + 1) / 2.0 ** (MBITS + 1)
 
@@ -158,8 +178,23 @@ class MasterRng:
 
 
 def build_chains(a):
+    global _POS_MODE
     chains = []
     starts = a["starts"]
+    if a.get("kind") == "hmc":
+        _POS_MODE = "floor"
+        for w, T in enumerate(a["temps"]):
+            post = FloorPost(etable(), WLO, outside=400, delay=a["delays"][w] if a.get("delays") else 0.0, jitter=a.get("jitter", 0))
+            st = np.array(starts[w], dtype=float) + 0.25
+            n = len(st)
+            ch = LoggedHamiltonianChain(posterior=post, grad=post.grad, start=st, epsilon=0.7, temperature=float(T),
+                                        bounds=(np.full(n, float(WLO)), np.full(n, WHI + 0.9)), display_progress=a.get("display", True))
+            ch.steps = 3
+            ch._wid = w + 1
+            ch.rng = RecordingGen(a["seed"] * 1000 + w, [], who="chain")
+            ch.ES.chk_int = 10 ** 9
+            chains.append(ch)
+        return chains
     for w, T in enumerate(a["temps"]):
         post = DelayPost(etable(), WLO, outside=400, delay=a["delays"][w] if a.get("delays") else 0.0,
                          jitter=a.get("jitter", 0))
